@@ -42,6 +42,9 @@ def x_jobs():
         skip = 1 if ind == "ParabolicSAR" else 0
         j.append(X("ind_constant_dispatch", {"kind": ind, "k": 6, "skip": skip}, "%s (default configuration) initialised with a valid symbolic candle and fed that candle 6 times: values constant over the reals, signals constant exactly%s" % (ind, " (from the second step, as the statement allows for the SAR)" if skip else ""),
                    cost=3, encodes=["src/indicators/*.rs: %s::{init,next}" % ind, "src/helpers/methods.rs", "src/methods/*.rs", "src/core/indicator/result.rs", "src/core/action.rs"]))
+    for ind in "AwesomeOscillator BollingerBands ChandeKrollStop ChandeMomentumOscillator CommodityChannelIndex CoppockCurve DetrendedPriceOscillator EldersForceIndex Envelopes FisherTransform HullMovingAverage IchimokuCloud Kaufman KeltnerChannel MACD MomentumIndex RelativeStrengthIndex SMIErgodicIndicator TrendStrengthIndex Trix TrueStrengthIndex WoodiesCCI".split():
+        j.append(X("ind_constant_open_dispatch", {"kind": ind, "k": 14, "skip": 0}, "%s with source = Open (other parameters default), initialised with a valid symbolic candle (open and close independent) and fed that candle 14 times (beyond the default delay windows): values constant over the reals, signals constant exactly" % ind,
+                   cost=3, encodes=["src/indicators/*.rs: %s::{init,next}" % ind, "src/core/ohlcv.rs: OHLCV::source", "src/helpers/methods.rs", "src/methods/*.rs"]))
     return j
 
 
